@@ -49,7 +49,7 @@ StepRowsOK(F) == LET R == RowsOfFile(F) IN
 
 Init == /\ \E h \in Hs, a \in S1s, b \in S2s, k \in Ks, d \in Skews :
               LET F == FileSet(h, a, b, k) IN
-              /\ StepRowsOK(F)
+              /\ StepRowsOK(F) = TRUE
               /\ files = IF d = 99 THEN [r \in {0} |-> F] ELSE [r \in {0, 1} |-> IF r = 0 THEN F ELSE Delay(F, d)]
         /\ incl \in BOOLEAN
         /\ phase = "parse" /\ parsed = {} /\ frames = [r \in {} |-> {}] /\ minTs = 0
